@@ -191,6 +191,37 @@ theorem fields_joinSp : ∀ (ws : List Bytes), (∀ w ∈ ws, noSpace w) → fie
     rw [fields] at ih
     rw [ih]; simp
 
+theorem splitAux_word (w rest cur : Bytes) (h : ∀ c ∈ w, isSpace c = false) :
+    splitAux (w ++ rest) cur = splitAux rest (w.reverse ++ cur) := by
+  induction w generalizing cur with
+  | nil => rfl
+  | cons c t ih =>
+    have hc := h c List.mem_cons_self
+    have hne : c ≠ 32 := by
+      intro e; subst e; exact absurd hc (by decide)
+    rw [List.cons_append, splitAux]
+    simp only [hne, ↓reduceIte]
+    rw [ih _ (fun x hx => h x (List.mem_cons_of_mem _ hx))]
+    simp
+
+/-- `strings.Split(m, " ")` and `strings.Fields(m)` agree on single-space-joined sentences -/
+theorem splitSp_joinSp : ∀ (ws : List Bytes), ws ≠ [] → (∀ w ∈ ws, noSpace w) → splitSp (joinSp ws) = ws
+  | [], h, _ => absurd rfl h
+  | [w], _, h => by
+    have hw := h w List.mem_cons_self
+    have := splitAux_word w [] [] hw.2
+    simp only [List.append_nil] at this
+    rw [splitSp, joinSp, this, splitAux]
+    simp
+  | w :: w' :: ws, _, h => by
+    have hw := h w List.mem_cons_self
+    have ih := splitSp_joinSp (w' :: ws) (by simp) (fun x hx => h x (List.mem_cons_of_mem _ hx))
+    have ej : joinSp (w :: w' :: ws) = w ++ 32 :: joinSp (w' :: ws) := rfl
+    rw [splitSp, ej, splitAux_word w _ [] hw.2, splitAux]
+    simp only [↓reduceIte]
+    rw [splitSp] at ih
+    rw [ih]; simp
+
 theorem wordOf_noSpace (d : Nat) (h : d < 2048) : noSpace (wordOf d) := by
   have hl := wordList_length
   have hd : d < wordList.length := by omega
